@@ -45,6 +45,7 @@ type Program struct {
 	Native   bool              // bystander program: the natively built SOURCE package is the reference (C13)
 	MapOrder bool              // traces are compared as sorted multisets (map iteration order)
 	Expect   string            // "" | "reject-or-equiv" (C12)
+	Optional bool              // mechanically derived variant (genr.Contexts): a precondition failure drops it instead of being a harness error
 	Imports  []string          // extra std imports needed by the program text
 	Files    map[string]string // extra data files of the package (e.g. for //go:embed); '§' in names is the program prefix
 	Info     map[string]any
